@@ -279,36 +279,29 @@ func substring(context Context, args ...Result) (Result, error) {
 	}
 
 	str := args[0].String()
-	begin := getRound(args[1].Number())
+	begin := xpathRound(args[1].Number())
+	end := math.Inf(1)
 
-	if float64(begin-1) >= float64(len(str)) || math.IsNaN(float64(begin)) {
-		return String(""), nil
+	if len(args) == 3 {
+		end = begin + xpathRound(args[2].Number())
 	}
 
-	if len(args) == 2 {
-		if begin <= 1 {
-			begin = 1
+	// The result holds the characters whose position (counting characters,
+	// not bytes, from 1) is at least round(begin) and less than round(begin) +
+	// round(length).  With NaN or infinite arguments the comparisons are false
+	// or true exactly as XPath 1.0 section 4.2 specifies.
+	ret := strings.Builder{}
+	pos := 0.0
+
+	for _, r := range str {
+		pos++
+
+		if pos >= begin && pos < end {
+			ret.WriteRune(r)
 		}
-
-		return String(str[int(begin)-1:]), nil
 	}
 
-	end := getRound(args[2].Number())
-
-	if end <= 0 || math.IsNaN(float64(end)) || (math.IsInf(float64(begin), 0) && math.IsInf(float64(end), 0)) {
-		return String(""), nil
-	}
-
-	if begin <= 1 {
-		end = begin + end - 1
-		begin = 1
-	}
-
-	if float64(begin+end-1) >= float64(len(str)) {
-		end = float64(len(str)) - begin + 1
-	}
-
-	return String(str[int(begin)-1 : int(begin+end)-1]), nil
+	return String(ret.String()), nil
 }
 
 func stringLength0(context Context, args ...Result) (Result, error) {
